@@ -262,6 +262,30 @@ func c14Details(c *RunCtx) {
 				return
 			}
 			seen[uid] = rp.want
+			// ... and straight afterwards an answer that lacks members (the error document a provider sends for
+			// a token without the profile scope; a profile without an e-mail address): what is absent is
+			// absent, never what the previous visitor's answer said
+			for _, partial := range []string{`{"error":{"code":401,"message":"Request is missing required authentication credential.","status":"UNAUTHENTICATED"}}`, `{"name":"Only A Name"}`, `{"id":"partial-7"}`} {
+				pctx := context.WithValue(context.Background(), xoauth2.HTTPClient, &http.Client{Transport: roundTripFunc(func(*http.Request) (*http.Response, error) {
+					return &http.Response{StatusCode: 200, Status: "200", Header: http.Header{"Content-Type": []string{"application/json"}}, Body: io.NopCloser(strings.NewReader(partial))}, nil
+				})})
+				pg, perr := fn(pctx, xoauth2.Config{}, &xoauth2.Token{AccessToken: "t2"})
+				c.Stats.Evaluations++
+				if perr != nil {
+					c.Stats.Count("details:partial-answer-refused")
+					continue
+				}
+				c.Stats.Count("details:partial-answer-accepted")
+				wantUID := ""
+				if strings.Contains(partial, "partial-7") {
+					wantUID = "partial-7"
+				}
+				if pg[ab2.OAuth2UID] != wantUID || (pg[ab2.OAuth2Email] != "" && !strings.Contains(partial, pg[ab2.OAuth2Email])) {
+					v := vio("C14", "provider-details-carry-over-from-previous-answer|"+name, "after an answer reporting id %s, the answer %s was turned into uid %q / email %q", rp.json, trunc(partial, 60), pg[ab2.OAuth2UID], pg[ab2.OAuth2Email])
+					c.Stats.Violations = append(c.Stats.Violations, sim.VioRec{Violation: *v})
+					return
+				}
+			}
 		}
 	}
 }
@@ -301,7 +325,7 @@ var c14Profile = &sim.Profile{
 func init() {
 	register(&Check{
 		ID: "C14", Level: "exploration",
-		Rule:  "interleaved OAuth2 starts and callbacks over 3 browsers x 2 providers; state strings: the session's own, empty, prefix, extended, case-flipped, another browser's, spent, garbage; codes: valid, bogus, minted by the other provider, provider error; provider-reported uids from a hostile corpus (';', ';;', 'oauth2;;alpha;;x', NUL, non-ASCII, 4 KB, blank). The fake provider's tables are the ground truth of which identity was reported. Oracle: a callback touches users or sets uid only if its state equals the value issued to THIS browser by a start request and not yet matched; a matching callback leaves no state behind; on success uid == Make(provider-of-callback, reported uid) and the stored user carries that pair; provider errors and failed exchanges log nobody in. Plus the library's own Google/Facebook FindUserDetails functions against a 'me' endpoint reporting ids as strings and as bare JSON numbers (incl. neighbours beyond 2^53): what is not refused is exactly the reported id. Plus a codec sweep: generated (provider,uid) pairs (provider from [a-z0-9_-]+) never collide and Parse(Make()) never yields a different pair. distinct_nontrivial = distinct (state class, code class, session state, uid class, error-handler kind, uid outcome, diff size) signatures.",
+		Rule:  "interleaved OAuth2 starts and callbacks over 3 browsers x 2 providers; state strings: the session's own, empty, prefix, extended, case-flipped, another browser's, spent, garbage; codes: valid, bogus, minted by the other provider, provider error; provider-reported uids from a hostile corpus (';', ';;', 'oauth2;;alpha;;x', NUL, non-ASCII, 4 KB, blank). The fake provider's tables are the ground truth of which identity was reported. Oracle: a callback touches users or sets uid only if its state equals the value issued to THIS browser by a start request and not yet matched; a matching callback leaves no state behind; on success uid == Make(provider-of-callback, reported uid) and the stored user carries that pair; provider errors and failed exchanges log nobody in. Plus the library's own Google/Facebook FindUserDetails functions against a 'me' endpoint reporting ids as strings and as bare JSON numbers (incl. neighbours beyond 2^53): what is not refused is exactly the reported id; after every complete answer three partial ones (the provider's JSON error document, a name-only and an id-only profile): absent members come out absent, never as the previous answer's. Plus a codec sweep: generated (provider,uid) pairs (provider from [a-z0-9_-]+) never collide and Parse(Make()) never yields a different pair. distinct_nontrivial = distinct (state class, code class, session state, uid class, error-handler kind, uid outcome, diff size) signatures.",
 		Units: func(t string) int { return tierN(t, 640, 30000) },
 		Run: func(c *RunCtx, unit int) {
 			r := Rng(c.Seed, "C14", unit)
@@ -319,7 +343,7 @@ func init() {
 			sim.RunHistory(s, c14Profile, []sim.Monitor{c14mon{c.Stats}}, c.Stats, unit)
 		},
 		Floors: func(t string) map[string]int {
-			return map[string]int{"login-ok": 300, "state-spent": 300, "provider-error": 30, "exchange-failed": 30, "callback-without-own-unused-state:spent": 50, "callback-without-own-unused-state:otherbrowser": 50, "codec:roundtrip": 1000}
+			return map[string]int{"details:partial-answer-accepted": 100, "login-ok": 300, "state-spent": 300, "provider-error": 30, "exchange-failed": 30, "callback-without-own-unused-state:spent": 50, "callback-without-own-unused-state:otherbrowser": 50, "codec:roundtrip": 1000}
 		},
 		Assumptions: []string{"provider names are drawn from [a-z0-9_-]+ (lower-cased URL path segments) — the reading of 'free of the identifier separator'", "Parse(Make(p,u)) may refuse uids containing ';;' (counted) but must never return a different pair"},
 	})
